@@ -30,7 +30,17 @@ def isNt (alph : List Char) : Bool := (Tab.ntAlphabets.lookup alph).isSome
 /-- the parent characters at the given positions -/
 def charsAt (P : Str) (ps : List Nat) : Option Str := mapOpt (fun p => P[p]?) ps
 
-def compAll (alph : List Char) (s : Str) : Option Str := mapOpt (compOf alph) s
+/-- the complement table of the named alphabet (computed once per string) -/
+def compTable (alph : List Char) : Option (List (Char × Char)) :=
+  match Tab.ntAlphabets.lookup alph with
+  | none => none
+  | some letters => some (Tab.complementOn letters)
+
+/-- complement every letter (`= mapOpt (compOf alph)`, see `Proofs/SeqBasics.compAll_eq`) -/
+def compAll (alph : List Char) (s : Str) : Option Str :=
+  match compTable alph with
+  | some t => mapOpt (fun c => t.lookup c) s
+  | none => mapOpt (fun _ => none) s
 
 /-- reverse complement of a string -/
 def revcomp (alph : List Char) (s : Str) : Option Str := compAll alph s.reverse
